@@ -39,6 +39,38 @@ theorem C12_idempotent (r : PRepo) (hok : r.OK) (refs : List Nat) (r' : PRepo)
     (h : prune Facts.pruneSearchChecked r refs = .ok r') : prune Facts.pruneSearchChecked r' refs = .ok r' := by
   rw [C12_fact_searchChecked] at h ⊢; exact prune_idempotent r hok refs r' h
 
+/-- A ref whose commit is not stored (a remote-tracking ref or tag saved for a commit whose objects
+    never arrived) roots nothing and stops nothing: prune does exactly what it does on the same
+    repository without that ref. With `C12_completes`: it completes on a closed history. -/
+theorem C12_dangling_refs_root_nothing (r : PRepo) (refs : List Nat) :
+    prune Facts.pruneSearchChecked r refs =
+      prune Facts.pruneSearchChecked r (refs.filter (fun x => (r.commits.get? x).isSome)) :=
+  prune_ignores_dangling_refs _ r refs
+
+/-- The table of every reachable commit survives WHOLE: the table object, each of its blocks and
+    each of its OWN block indices that was stored — whatever else lists the same blocks. -/
+theorem C12_live_table_kept_whole (r : PRepo) (hok : r.OK) (refs : List Nat) (r' : PRepo)
+    (h : prune Facts.pruneSearchChecked r refs = .ok r')
+    (t : PTable) (ht : t ∈ r.tables) (c : Commit) (hc : c ∈ r.commits)
+    (hreach : (reachableCommits r refs).contains c.id = true) (hct : c.table = t.id) :
+    t ∈ r'.tables ∧ (∀ b ∈ t.blocks, b ∈ r.blocks → b ∈ r'.blocks) ∧ (∀ i ∈ t.idxs, i ∈ r.idxs → i ∈ r'.idxs) := by
+  rw [C12_fact_searchChecked] at h; exact live_table_kept_whole r hok refs r' h t ht c hc hreach hct
+
+/-- Two live tables over the same blocks with different block indices (the same rows committed under
+    two primary keys: a block index is a function of the rows AND the key): the block indices of
+    both survive. "Same block, hence same block index" is not a property of the store. -/
+theorem C12_same_blocks_other_indices_both_kept (r : PRepo) (hok : r.OK) (refs : List Nat) (r' : PRepo)
+    (h : prune Facts.pruneSearchChecked r refs = .ok r')
+    (t₁ t₂ : PTable) (h₁ : t₁ ∈ r.tables) (h₂ : t₂ ∈ r.tables) (_hsame : t₁.blocks = t₂.blocks)
+    (c₁ c₂ : Commit) (hc₁ : c₁ ∈ r.commits) (hc₂ : c₂ ∈ r.commits)
+    (hr₁ : (reachableCommits r refs).contains c₁.id = true) (hr₂ : (reachableCommits r refs).contains c₂.id = true)
+    (ht₁ : c₁.table = t₁.id) (ht₂ : c₂.table = t₂.id) :
+    ∀ i ∈ t₁.idxs ++ t₂.idxs, i ∈ r.idxs → i ∈ r'.idxs := by
+  intro i hi hir
+  rcases List.mem_append.mp hi with hi | hi
+  · exact (C12_live_table_kept_whole r hok refs r' h t₁ h₁ c₁ hc₁ hr₁ ht₁).2.2 i hi hir
+  · exact (C12_live_table_kept_whole r hok refs r' h t₂ h₂ c₂ hc₂ hr₂ ht₂).2.2 i hi hir
+
 /-- the mark phase starts from every ref (the `roots` of the theorems below are all refs) -/
 theorem C12_fact_rootsAllRefs : Facts.pruneRootsAreAllRefs = true := by decide
 
